@@ -165,7 +165,9 @@ impl MultiProgress {
         };
 
         state.draw_target = ProgressDrawTarget::hidden();
-        self.state.write().unwrap().remove_idx(idx);
+        let mut multi = self.state.write().unwrap();
+        multi.remove_idx(idx);
+        multi.frame_stale = true;
     }
 
     fn internalize(&self, location: InsertLocation, pb: ProgressBar) -> ProgressBar {
@@ -227,6 +229,9 @@ pub(crate) struct MultiState {
     orphan_lines: Vec<LineType>,
     /// The count of currently visible zombie lines.
     zombie_lines_count: VisualLines,
+    /// Whether the members changed, or the screen was cleared, since the last painted frame, so
+    /// that the lines on screen can not be attributed to the current members.
+    frame_stale: bool,
 }
 
 impl MultiState {
@@ -239,6 +244,7 @@ impl MultiState {
             alignment: MultiProgressAlignment::default(),
             orphan_lines: Vec::new(),
             zombie_lines_count: VisualLines::default(),
+            frame_stale: false,
         }
     }
 
@@ -248,8 +254,9 @@ impl MultiState {
         let member = &mut self.members[index];
 
         // If the zombie is the first visual bar then we can reap it right now instead of
-        // deferring it to the next draw.
-        if index != self.ordering.first().copied().unwrap() {
+        // deferring it to the next draw. (Only if the lines on screen are those of the current
+        // members, otherwise the wrong lines would be kept.)
+        if index != self.ordering.first().copied().unwrap() || self.frame_stale {
             member.is_zombie = true;
             return;
         }
@@ -369,6 +376,9 @@ impl MultiState {
                 .adjust_last_line_count(LineAdjust::Keep(adjust));
         }
 
+        // The screen now shows exactly the current members.
+        self.frame_stale = false;
+
         drawable
     }
 
@@ -452,6 +462,7 @@ impl MultiState {
                 // Make the clear operation also wipe out zombie lines
                 drawable.adjust_last_line_count(LineAdjust::Clear(self.zombie_lines_count));
                 self.zombie_lines_count = VisualLines::default();
+                self.frame_stale = true;
                 // An explicit clear hands the rows over to whatever is printed next: do not keep
                 // a blank bottom-aligned region (the next draw sets the alignment again)
                 drawable.state().alignment = MultiProgressAlignment::Top;
